@@ -94,7 +94,8 @@ Record GInv (A : list id) (s : st) : Prop := {
   g_disj : forall x, In x (regids s) -> ~ In x (pids s);
   g_fresh : forall x, In x (regids s) \/ In x (pids s) -> fin_count s x = 0;
   g_prog : forall x, In x A -> fin_count s x = 1 /\ free_count s x = 0;
-  g_rest : forall x, ~ In x A -> free_count s x = fin_count s x /\ fin_count s x <= 1
+  g_rest : forall x, ~ In x A -> free_count s x = fin_count s x /\ fin_count s x <= 1;
+  g_info : forall x, In x (regids s) \/ In x (pids s) -> info s x <> None
 }.
 
 Record Ext (s s' : st) : Prop := {
@@ -111,7 +112,8 @@ Record Ext (s s' : st) : Prop := {
   e_regdone : forall x, In x (regids s) -> ~ In x (regids s') -> done s' x;
   e_penddone : forall x, In x (pids s) -> ~ In x (pids s') -> done s' x;
   e_done : forall x, done s x -> done s' x;
-  e_meas : measure s' <= measure s
+  e_meas : measure s' <= measure s;
+  e_src : forall x, fin_count s x = 0 -> 0 < fin_count s' x -> info s x <> None
 }.
 
 Lemma Forall2_refl_or {A} (l : list (option A)) : Forall2 (fun a b => a = b \/ a = None) l l.
@@ -122,6 +124,7 @@ Proof.
   constructor; auto; try tauto.
   - apply incl_refl.
   - apply Forall2_refl_or.
+  - intros x H0 H1. lia.
 Qed.
 
 Lemma F2_trans {A} (l1 l2 l3 : list (option A)) :
@@ -165,6 +168,9 @@ Proof.
     + apply (e_done _ _ H2). apply (e_penddone _ _ H1); assumption.
   - intros x Hd. apply (e_done _ _ H2), (e_done _ _ H1), Hd.
   - pose proof (e_meas _ _ H1). pose proof (e_meas _ _ H2). lia.
+  - intros x H0 H3. destruct (Nat.eq_dec (fin_count s2 x) 0) as [Hz|Hnz].
+    + rewrite <- (e_info _ _ H1). apply (e_src _ _ H2 x Hz H3).
+    + apply (e_src _ _ H1 x H0). lia.
 Qed.
 
 Lemma Ext_regids s s' : Ext s s' -> incl (regids s') (regids s).
@@ -187,14 +193,14 @@ Qed.
 
 (* logging the destructor call of o *)
 Lemma add_fin_ok A s o :
-  GInv A s -> ~ In o (regids s) -> ~ In o (pids s) -> fin_count s o = 0 ->
+  GInv A s -> ~ In o (regids s) -> ~ In o (pids s) -> fin_count s o = 0 -> info s o <> None ->
   GInv (o :: A) (add_log (LFin o) s) /\ Ext s (add_log (LFin o) s).
 Proof.
-  intros G Hr Hp Hf.
+  intros G Hr Hp Hf Hinfo.
   assert (HoA : ~ In o A). { intros HA. destruct (g_prog _ _ G o HA). lia. }
   assert (Hfree : free_count s o = 0). { destruct (g_rest _ _ G o HoA). lia. }
   split.
-  - constructor; [apply G | apply G | apply G | | |].
+  - constructor; [apply G | apply G | apply G | | | | apply G].
     + intros x Hx. rewrite fin_add_fin. destruct (Nat.eqb_spec x o) as [->|Hne].
       * destruct Hx; contradiction.
       * simpl. apply (g_fresh _ _ G). exact Hx.
@@ -206,8 +212,9 @@ Proof.
       destruct (Nat.eqb_spec x o) as [->|Hne]; [exfalso; apply Hx; left; reflexivity|].
       simpl. apply (g_rest _ _ G). intros HA. apply Hx. right. exact HA.
   - constructor; try ext_triv; try (intros x; rewrite ?fin_add_fin, ?free_add_fin; lia).
-    intros x [Hd1 Hd2]. unfold done. rewrite fin_add_fin, free_add_fin.
+    + intros x [Hd1 Hd2]. unfold done. rewrite fin_add_fin, free_add_fin.
       destruct (Nat.eqb_spec x o) as [->|Hne]; [lia | simpl; auto].
+    + intros x H0. rewrite fin_add_fin. destruct (Nat.eqb_spec x o) as [->|Hne]; [intros _; exact Hinfo | simpl; lia].
 Qed.
 
 (* logging the release of o's memory *)
@@ -229,6 +236,7 @@ Proof.
     + intros x Hx. rewrite fin_add_free, free_add_free.
       destruct (Nat.eqb_spec x o) as [->|Hne]; [lia|]. simpl.
       apply (g_rest _ _ G). intros [<-|HA]; [congruence | contradiction].
+    + apply G.
   - constructor; try ext_triv; try (intros x; rewrite ?fin_add_free, ?free_add_free; lia).
     intros x [Hd1 Hd2]. unfold done. rewrite fin_add_free, free_add_free.
       destruct (Nat.eqb_spec x o) as [->|Hne]; [lia | simpl; auto].
@@ -239,13 +247,13 @@ Qed.
 Lemma set_mitems_ok A s m : GInv A s -> GInv A (set_mitems m s) /\ Ext s (set_mitems m s).
 Proof.
   intros G. split; [constructor; apply G|].
-  constructor; try ext_triv; try (intros x; apply Nat.le_refl).
+  constructor; try ext_triv; try (intros x; apply Nat.le_refl); intros x H0 H1; change (0 < fin_count s x) in H1; lia.
 Qed.
 
 Lemma set_owned_ok A s f : GInv A s -> GInv A (set_owned f s) /\ Ext s (set_owned f s).
 Proof.
   intros G. split; [constructor; apply G|].
-  constructor; try ext_triv; try (intros x; apply Nat.le_refl).
+  constructor; try ext_triv; try (intros x; apply Nat.le_refl); intros x H0 H1; change (0 < fin_count s x) in H1; lia.
 Qed.
 
 Lemma F2_null o l : Forall2 (fun a b => a = b \/ a = None) (null_pend o l) l.
@@ -274,6 +282,8 @@ Proof.
       rewrite Hp, filter_In in Hx. apply (g_fresh _ _ G). right. tauto.
     + apply G.
     + apply G.
+    + intros x [Hx|Hx]; [apply (g_info _ _ G); left; exact Hx|].
+      rewrite Hp, filter_In in Hx. apply (g_info _ _ G). right. tauto.
   - intros Hr. apply (g_disj _ _ G o Hr Hin).
   - apply (g_fresh _ _ G). right. exact Hin.
   - unfold measure, nitems. rewrite !live_pend_somes, Hp. change (reg s') with (reg s).
@@ -311,6 +321,8 @@ Proof.
       rewrite Hr, filter_In in Hx. apply (g_fresh _ _ G). left. tauto.
     + apply G.
     + apply G.
+    + intros x [Hx|Hx]; [|apply (g_info _ _ G); right; exact Hx].
+      rewrite Hr, filter_In in Hx. apply (g_info _ _ G). left. tauto.
   - apply (g_disj _ _ G o Hin).
   - apply (g_fresh _ _ G). left. exact Hin.
   - unfold measure, nitems. simpl reg. fold (regids s).
@@ -329,7 +341,7 @@ Qed.
 (* ------------------------------------------------------------------ finalisation *)
 (* what a finaliser `fin` achieves on states of measure below n *)
 Definition FinOK (fin : st -> id -> st) (n : nat) : Prop :=
-  forall A s o, GInv A s -> ~ In o (regids s) -> ~ In o (pids s) -> fin_count s o = 0 -> measure s < n ->
+  forall A s o, GInv A s -> ~ In o (regids s) -> ~ In o (pids s) -> fin_count s o = 0 -> info s o <> None -> measure s < n ->
     GInv A (fin s o) /\ Ext s (fin s o) /\ done (fin s o) o.
 
 Lemma Ext_of_fields s s' :
@@ -345,6 +357,7 @@ Proof.
   - intros x. rewrite Hf. lia.
   - intros x. rewrite Hr. lia.
   - intros x [H11 H12]. unfold done. rewrite Hf, Hr. auto.
+  - intros x Hz Hp'. rewrite Hf in Hp'. lia.
 Qed.
 
 (* s1 = s with the entry of p taken out of the registry or out of the pending list; once p is
@@ -377,6 +390,7 @@ Proof.
     apply (e_penddone _ _ E); auto.
   - intros x [H1 H2]. apply (e_done _ _ E). unfold done. rewrite Hf, Hfr. auto.
   - pose proof (e_meas _ _ E). lia.
+  - intros x H0 H1. rewrite <- Hi. apply (e_src _ _ E x); [rewrite Hf; exact H0 | exact H1].
 Qed.
 
 (* GC_Rem (repaired) with a good finaliser *)
@@ -392,7 +406,8 @@ Proof.
   - apply in_pend_spec in Hp.
     destruct (null_pend_ok A s p G Hp) as (G1 & N1 & N2 & F0 & M1 & R1 & I1 & D1 & T1 & B1 & O1 & L1 & Rg1 & P1 & K1).
     set (s1 := set_pend (null_pend p (pend s)) s) in *.
-    destruct (HF A s1 p G1 N1 N2 F0 ltac:(lia)) as (G2 & E2 & Dn).
+    assert (Hinf : info s1 p <> None) by (rewrite I1; apply (g_info _ _ G); right; exact Hp).
+    destruct (HF A s1 p G1 N1 N2 F0 Hinf ltac:(lia)) as (G2 & E2 & Dn).
     set (s2 := fin s1 p) in *.
     destruct (set_mitems_ok A s2 (mitems_rule (nitems s2)) G2) as (G3 & E3).
     split; [exact G3|]. split.
@@ -407,7 +422,8 @@ Proof.
     + apply in_reg_spec in Hr.
       destruct (rem_reg_ok A s p G Hr) as (G1 & N1 & N2 & F0 & M1 & R1 & I1 & D1 & T1 & B1 & O1 & L1 & Pd1 & Rg1 & K1).
       set (s1 := set_reg (rem_reg p (reg s)) s) in *.
-      destruct (HF A s1 p G1 N1 N2 F0 ltac:(lia)) as (G2 & E2 & Dn).
+      assert (Hinf : info s1 p <> None) by (rewrite I1; apply (g_info _ _ G); left; exact Hr).
+      destruct (HF A s1 p G1 N1 N2 F0 Hinf ltac:(lia)) as (G2 & E2 & Dn).
       set (s2 := fin s1 p) in *.
       destruct (set_mitems_ok A s2 (mitems_rule (nitems s2)) G2) as (G3 & E3).
       split; [exact G3|]. split.
@@ -428,10 +444,10 @@ Qed.
 (* dealloc(destruct(o)) with enough fuel *)
 Lemma finalise_ok f : FinOK (finalise true f) f.
 Proof.
-  induction f as [|f IH]; intros A s o G Hr Hp Hf Hm; [lia|].
+  induction f as [|f IH]; intros A s o G Hr Hp Hf Hinfo Hm; [lia|].
   assert (HoA : ~ In o A). { intros HA. destruct (g_prog _ _ G o HA). lia. }
   cbn [finalise].
-  destruct (add_fin_ok A s o G Hr Hp Hf) as (G1 & E1).
+  destruct (add_fin_ok A s o G Hr Hp Hf Hinfo) as (G1 & E1).
   set (s1 := add_log (LFin o) s) in *.
   assert (Hm1 : measure s1 <= f) by (pose proof (e_meas _ _ E1); lia).
   assert (Hr1 : ~ In o (regids s1)) by exact Hr.
@@ -450,4 +466,438 @@ Proof.
   - destruct (add_free_ok A s1 o G1 HoA Hr1 Hp1) as (G4 & E4 & Dn).
     split; [exact G4|]. split; [|exact Dn].
     eapply Ext_trans; [exact E1 | exact E4].
+Qed.
+
+(* ------------------------------------------------------------------ the sweep *)
+Lemma F2_length {A} (l1 l2 : list (option A)) :
+  Forall2 (fun a b => a = b \/ a = None) l1 l2 -> length l1 = length l2.
+Proof. induction 1; simpl; auto. Qed.
+
+Lemma F2_nth_none (l1 l2 : list (option id)) j :
+  Forall2 (fun a b => a = b \/ a = None) l1 l2 -> nth j l2 None = None -> nth j l1 None = None.
+Proof.
+  intros H. revert j. induction H; intros j Hj; [destruct j; reflexivity|].
+  destruct j; simpl in *.
+  - destruct H as [-> | ->]; auto.
+  - apply IHForall2. exact Hj.
+Qed.
+
+Lemma nth_null_none o l j : nth j l None = Some o -> nth j (null_pend o l) None = None.
+Proof.
+  unfold null_pend. revert j. induction l as [|a l IH]; intros j Hj; [destruct j; discriminate|].
+  destruct j; simpl in *.
+  - subst a. simpl. rewrite Nat.eqb_refl. reflexivity.
+  - apply IH. exact Hj.
+Qed.
+
+Lemma nth_in_somes l j o : nth j l None = Some o -> In o (somes l).
+Proof.
+  intros H. apply somes_in. destruct (Nat.lt_ge_cases j (length l)) as [Hl|Hl].
+  - rewrite <- H. apply nth_In. exact Hl.
+  - rewrite nth_overflow in H by exact Hl. discriminate.
+Qed.
+
+Lemma all_none_somes (l : list (option id)) :
+  (forall j, j < length l -> nth j l None = None) -> somes l = [].
+Proof.
+  induction l as [|a l IH]; intros H; [reflexivity|].
+  pose proof (H 0 ltac:(simpl; lia)) as H0. simpl in H0. subst a. simpl.
+  apply IH. intros j Hj. apply (H (S j)). simpl. lia.
+Qed.
+
+Lemma null_pend_length o l : length (null_pend o l) = length l.
+Proof. unfold null_pend. apply map_length. Qed.
+
+Lemma sweep_loop_ok k : forall i s,
+  GInv [] s -> (forall j, j < i -> nth j (pend s) None = None) -> i + k = length (pend s) ->
+  let s' := sweep_loop true true k i s in
+  GInv [] s' /\ Ext s s' /\ pids s' = [].
+Proof.
+  induction k as [|k IH]; intros i s G Hnone Hlen; cbn [sweep_loop].
+  - split; [exact G|]. split; [apply Ext_refl|].
+    apply all_none_somes. intros j Hj. apply Hnone. lia.
+  - destruct (nth i (pend s) None) as [o|] eqn:Hnth.
+    + assert (Hin : In o (pids s)) by (eapply nth_in_somes; exact Hnth).
+      destruct (null_pend_ok [] s o G Hin) as (G1 & N1 & N2 & F0 & M1 & R1 & I1 & D1 & T1 & B1 & O1 & L1 & Rg1 & P1 & K1).
+      set (s1 := set_pend (null_pend o (pend s)) s) in *.
+      assert (Hinf : info s1 o <> None) by (rewrite I1; apply (g_info _ _ G); right; exact Hin).
+      destruct (finalise_ok (fuel_of s1) [] s1 o G1 N1 N2 F0 Hinf ltac:(unfold fuel_of, measure; lia)) as (G2 & E2 & Dn).
+      set (s2 := finalise true (fuel_of s1) s1 o) in *.
+      assert (E : Ext s s2).
+      { assert (Hreg : incl (reg s1) (reg s)) by (rewrite Rg1; apply incl_refl).
+        assert (Kr : forall x, In x (regids s) -> x <> o -> In x (regids s1)).
+        { intros x Hx _. unfold regids. rewrite Rg1. exact Hx. }
+        assert (Hm' : measure s1 <= measure s) by lia.
+        exact (Ext_from_removed s s1 _ o R1 I1 D1 T1 B1 O1 L1 Hreg P1 Kr K1 Hm' E2 Dn). }
+      assert (Hl2 : length (pend s2) = length (pend s)) by (apply F2_length, E).
+      destruct (IH (S i) s2 G2) as (G3 & E3 & P3).
+      * intros j Hj. apply (F2_nth_none _ _ _ (e_pend _ _ E2)).
+        destruct (Nat.eq_dec j i) as [->|Hne].
+        -- apply nth_null_none. exact Hnth.
+        -- apply (F2_nth_none _ _ _ P1). apply Hnone. lia.
+      * lia.
+      * split; [exact G3|]. split; [eapply Ext_trans; eassumption | exact P3].
+    + destruct (IH (S i) s G) as (G3 & E3 & P3).
+      * intros j Hj. destruct (Nat.eq_dec j i) as [->|Hne]; [exact Hnth | apply Hnone; lia].
+      * lia.
+      * split; [exact G3|]. split; [exact E3 | exact P3].
+Qed.
+
+Lemma NoDup_app_intro {A} (l1 l2 : list A) :
+  NoDup l1 -> NoDup l2 -> (forall x, In x l1 -> ~ In x l2) -> NoDup (l1 ++ l2).
+Proof.
+  induction 1; intros H2 Hd; simpl; [exact H2|].
+  constructor.
+  - rewrite in_app_iff. intros [Hx|Hx]; [contradiction|]. apply (Hd x); [left; reflexivity | exact Hx].
+  - apply IHNoDup; auto. intros y Hy. apply Hd. right. exact Hy.
+Qed.
+
+Lemma existsb_eqb_in x l : existsb (Nat.eqb x) l = true <-> In x l.
+Proof.
+  rewrite existsb_exists. split.
+  - intros [y [H1 H2]]. apply Nat.eqb_eq in H2. subst. exact H1.
+  - intros H. exists x. split; auto. apply Nat.eqb_refl.
+Qed.
+
+Lemma arrange_spec order s :
+  NoDup (regids s) -> NoDup (arrange order s) /\ (forall x, In x (arrange order s) <-> In x (regids s)).
+Proof.
+  intros Hnd. unfold arrange. fold (regids s).
+  set (o1 := filter (in_reg s) (nodup Nat.eq_dec order)).
+  assert (H1 : NoDup o1) by (apply NoDup_filter, NoDup_nodup).
+  split.
+  - apply NoDup_app_intro; auto.
+    + apply NoDup_filter. exact Hnd.
+    + intros x Hx. rewrite filter_In. intros [_ Hf].
+      apply (proj2 (existsb_eqb_in x o1)) in Hx. rewrite Hx in Hf. discriminate.
+  - intros x. rewrite in_app_iff, filter_In. split.
+    + intros [Hx|[Hx _]]; [|exact Hx]. apply filter_In in Hx. apply in_reg_spec. tauto.
+    + intros Hx. destruct (existsb (Nat.eqb x) o1) eqn:E.
+      * left. apply existsb_eqb_in. exact E.
+      * right. split; auto.
+Qed.
+
+Lemma map_fst_filter {B} (f : nat -> bool) (l : list (nat * B)) :
+  map fst (filter (fun e => f (fst e)) l) = filter f (map fst l).
+Proof. induction l as [|[a b] l IH]; simpl; auto. destruct (f a); simpl; rewrite IH; reflexivity. Qed.
+
+Lemma somes_map_Some l : somes (map Some l) = l.
+Proof. unfold somes. induction l; simpl; auto. rewrite IHl. reflexivity. Qed.
+
+Definition dead_of (order marks : list id) (s : st) : list id :=
+  filter (fun o => negb (is_root s o) && negb (existsb (Nat.eqb o) marks)) (arrange order s).
+
+(* GC_Sweep (repaired), between events: every unmarked non-root entry is finalised exactly once,
+   nothing else changes hands, and the pending list is empty again afterwards *)
+Lemma sweep_ok order marks s :
+  GInv [] s -> pend s = [] ->
+  let s' := sweep true true order marks s in
+  GInv [] s' /\ pend s' = [] /\ Ext s s' /\
+  (forall x, In x (regids s) -> is_root s x = false -> ~ In x marks -> done s' x).
+Proof.
+  intros G Hpe. unfold sweep. fold (dead_of order marks s).
+  set (dead := dead_of order marks s).
+  set (r' := filter (fun e => negb (existsb (Nat.eqb (fst e)) dead)) (reg s)).
+  set (s1 := set_mitems (mitems_rule (length r')) (set_pend (map Some dead) (set_reg r' s))).
+  destruct (arrange_spec order s (g_reg_nodup _ _ G)) as [Hand Hain].
+  assert (Hdead_in : forall x, In x dead -> In x (regids s)).
+  { intros x Hx. apply filter_In in Hx. apply Hain. tauto. }
+  assert (Hdead_nd : NoDup dead) by (apply NoDup_filter; exact Hand).
+  assert (Hr1 : regids s1 = filter (fun x => negb (existsb (Nat.eqb x) dead)) (regids s)).
+  { unfold regids, s1, r'. simpl. apply (map_fst_filter (fun x => negb (existsb (Nat.eqb x) dead))). }
+  assert (Hp1 : pids s1 = dead) by (unfold pids, s1; simpl; apply somes_map_Some).
+  assert (Hlog : log s1 = log s) by reflexivity.
+  assert (Hf : forall x, fin_count s1 x = fin_count s x) by reflexivity.
+  assert (Hfr : forall x, free_count s1 x = free_count s x) by reflexivity.
+  assert (G1 : GInv [] s1).
+  { constructor.
+    - rewrite Hr1. apply NoDup_filter, G.
+    - rewrite Hp1. exact Hdead_nd.
+    - intros x Hx. rewrite Hp1. rewrite Hr1, filter_In in Hx. destruct Hx as [_ Hx].
+      intros Hd. apply existsb_eqb_in in Hd. rewrite Hd in Hx. discriminate.
+    - intros x [Hx|Hx]; rewrite Hf; apply (g_fresh _ _ G); left.
+      + rewrite Hr1, filter_In in Hx. tauto.
+      + rewrite Hp1 in Hx. apply Hdead_in. exact Hx.
+    - intros x [].
+    - intros x Hx. rewrite Hf, Hfr. apply (g_rest _ _ G). exact Hx.
+    - intros x [Hx|Hx]; apply (g_info _ _ G); left.
+      + rewrite Hr1, filter_In in Hx. tauto.
+      + rewrite Hp1 in Hx. apply Hdead_in. exact Hx. }
+  destruct (sweep_loop_ok (length dead) 0 s1 G1) as (G2 & E2 & P2).
+  { intros j Hj. lia. }
+  { unfold s1. simpl. rewrite map_length. reflexivity. }
+  set (s2 := sweep_loop true true (length dead) 0 s1) in *.
+  assert (Hdone_dead : forall x, In x dead -> done s2 x).
+  { intros x Hx. apply (e_penddone _ _ E2).
+    - rewrite Hp1. exact Hx.
+    - rewrite P2. intros []. }
+  assert (Hreg_incl : incl (reg s2) (reg s)).
+  { eapply incl_tran; [apply E2|]. unfold s1, r'. simpl. apply incl_filter. }
+  split; [|split; [reflexivity|split]].
+  - constructor; try apply G2. 
+    + constructor.
+    + intros x Hx [].
+    + intros x [Hx|[]]. apply (g_fresh _ _ G2). left. exact Hx.
+    + intros x [Hx|[]]. apply (g_info _ _ G2). left. exact Hx.
+  - constructor.
+    + apply E2. + apply E2. + apply E2. + apply E2. + apply E2. + apply E2.
+    + intros x. rewrite <- Hf. apply E2.
+    + intros x. rewrite <- Hfr. apply E2.
+    + exact Hreg_incl.
+    + rewrite Hpe. constructor.
+    + intros x Hx Hnx. destruct (in_dec Nat.eq_dec x dead) as [Hd|Hnd]; [apply Hdone_dead; exact Hd|].
+      apply (e_regdone _ _ E2); [|exact Hnx].
+      rewrite Hr1, filter_In. split; [exact Hx|].
+      destruct (existsb (Nat.eqb x) dead) eqn:Ee; [apply existsb_eqb_in in Ee; contradiction | reflexivity].
+    + unfold pids at 1. rewrite Hpe. intros x [].
+    + intros x [Hd1 Hd2]. apply (e_done _ _ E2). unfold done. rewrite Hf, Hfr. auto.
+    + unfold measure, nitems. rewrite !live_pend_somes. unfold pids. simpl pend. rewrite Hpe. simpl.
+      assert (Hl : length (regids s2) <= length (regids s)).
+      { apply NoDup_incl_length; [apply G2|]. intros x Hx. unfold regids in *.
+        apply in_map_iff in Hx. destruct Hx as [e [<- He]]. apply in_map, Hreg_incl, He. }
+      unfold regids in Hl. rewrite !map_length in Hl. simpl reg. lia.
+    + intros x H0 H1. apply (e_src _ _ E2 x); [rewrite Hf; exact H0 | exact H1].
+  - intros x Hx Hroot Hm. apply Hdone_dead. unfold dead, dead_of. rewrite filter_In. split.
+    + apply Hain. exact Hx.
+    + rewrite Hroot. simpl. destruct (existsb (Nat.eqb x) marks) eqn:Ee; [apply existsb_eqb_in in Ee; contradiction | reflexivity].
+Qed.
+
+(* ------------------------------------------------------------------ whole histories *)
+Notation stepF := (step true true).
+Notation runF := (run true true).
+
+Record SInv (s : st) : Prop := {
+  si_g : GInv [] s;
+  si_pend : pend s = [];
+  si_oof : oof s = false;
+  si_reginfo : forall x r, In (x, r) (reg s) -> exists b, info s x = Some ((if r then KRoot else KManaged), b);
+  si_fin_alloc : forall x, info s x = None -> fin_count s x = 0
+}.
+
+(* between events and before teardown, every managed or root object whose destructor has not
+   run is registered — this is what allocation in a stop window breaks (F2) *)
+Definition RegAll (s : st) : Prop :=
+  torn s = false -> forall x k b, info s x = Some (k, b) -> k <> KRaw -> fin_count s x = 0 -> In x (regids s).
+
+Lemma count_zero e l : existsb (lev_eqb e) l = false -> count e l = 0.
+Proof.
+  unfold count. induction l as [|a l IH]; simpl; auto.
+  destruct (lev_eqb e a); simpl; [discriminate | exact IH].
+Qed.
+
+Lemma live_spec s o : live s o = true -> fin_count s o = 0 /\ info s o <> None.
+Proof.
+  unfold live. destruct (info s o); [|discriminate]. intros H. apply negb_true_iff in H.
+  split; [apply count_zero; exact H | discriminate].
+Qed.
+
+Lemma F2_nil_r {A} (l : list (option A)) : Forall2 (fun a b => a = b \/ a = None) l [] -> l = [].
+Proof. inversion 1. reflexivity. Qed.
+
+Lemma SInv_ext s s' : SInv s -> GInv [] s' -> Ext s s' -> SInv s' /\ (RegAll s -> RegAll s').
+Proof.
+  intros S G E. split.
+  - constructor.
+    + exact G.
+    + apply F2_nil_r. rewrite <- (si_pend _ S). apply E.
+    + rewrite (e_oof _ _ E). apply S.
+    + intros x r Hx. rewrite (e_info _ _ E). apply (si_reginfo _ S). apply (e_reg _ _ E). exact Hx.
+    + intros x Hx. rewrite (e_info _ _ E) in Hx.
+      pose proof (si_fin_alloc _ S x Hx) as H0.
+      destruct (Nat.eq_dec (fin_count s' x) 0) as [Hz|Hnz]; [exact Hz|].
+      exfalso. apply (e_src _ _ E x H0); [lia | exact Hx].
+  - intros R Ht x k b Hi Hk Hf.
+    rewrite (e_torn _ _ E) in Ht. rewrite (e_info _ _ E) in Hi.
+    assert (H0 : fin_count s x = 0) by (pose proof (e_fin _ _ E x); lia).
+    pose proof (R Ht x k b Hi Hk H0) as Hin.
+    destruct (in_dec Nat.eq_dec x (regids s')) as [Hi'|Hn]; [exact Hi'|].
+    destruct (e_regdone _ _ E x Hin Hn) as [Hd _]. lia.
+Qed.
+
+Lemma SInv_set_bad s : SInv s -> SInv (set_bad s) /\ (RegAll s -> RegAll (set_bad s)).
+Proof.
+  intros S. split; [|intros R; exact R].
+  constructor; try apply S. destruct (si_g _ S). constructor; assumption.
+Qed.
+
+Lemma SInv_set_bad' s (P : Prop) : SInv s -> SInv (set_bad s) /\ (RegAll s -> P -> RegAll (set_bad s)).
+Proof. intros S. destruct (SInv_set_bad s S) as [S' R']. split; [exact S' | intros R _; apply R', R]. Qed.
+
+Lemma SInv_init : SInv init /\ RegAll init.
+Proof.
+  split.
+  - constructor; try reflexivity.
+    + constructor.
+      * constructor.
+      * constructor.
+      * intros y [].
+      * intros y _. reflexivity.
+      * intros y [].
+      * intros y _. unfold free_count, fin_count, count, init; simpl; lia.
+      * intros y [[]|[]].
+    + intros y r [].
+  - intros _ y k b H. discriminate.
+Qed.
+
+Lemma GInv_same_core A s s' :
+  reg s' = reg s -> pend s' = pend s -> log s' = log s -> info s' = info s -> GInv A s -> GInv A s'.
+Proof.
+  intros Hr Hp Hl Hi G.
+  assert (Hf : forall x, fin_count s' x = fin_count s x) by (intros; unfold fin_count; congruence).
+  assert (Hfr : forall x, free_count s' x = free_count s x) by (intros; unfold free_count; congruence).
+  unfold regids, pids in *.
+  constructor; unfold regids, pids; rewrite ?Hr, ?Hp.
+  - apply G. - apply G. - apply G.
+  - intros x Hx. rewrite Hf. apply (g_fresh _ _ G). exact Hx.
+  - intros x Hx. rewrite Hf, Hfr. apply (g_prog _ _ G). exact Hx.
+  - intros x Hx. rewrite Hf, Hfr. apply (g_rest _ _ G). exact Hx.
+  - intros x Hx. rewrite Hi. apply (g_info _ _ G). exact Hx.
+Qed.
+
+Lemma is_root_false s x :
+  SInv s -> (exists b, info s x = Some (KManaged, b)) -> is_root s x = false.
+Proof.
+  intros S [b Hb]. unfold is_root. apply not_true_is_false. intros H.
+  apply existsb_exists in H. destruct H as [[y r] [Hin Hc]]. simpl in Hc.
+  apply andb_true_iff in Hc. destruct Hc as [Hy Hr]. apply Nat.eqb_eq in Hy. subst y r.
+  destruct (si_reginfo _ S x true Hin) as [b' Hb']. congruence.
+Qed.
+
+Lemma register_ok s o (r : bool) :
+  SInv s -> ~ In o (regids s) -> fin_count s o = 0 ->
+  (exists b, info s o = Some ((if r then KRoot else KManaged), b)) ->
+  SInv (set_reg ((o, r) :: reg s) s).
+Proof.
+  intros S Hno Hfo [b Hb]. pose proof (si_g _ S) as G. pose proof (si_pend _ S) as Hpe.
+  constructor.
+  - constructor.
+    + simpl. constructor; [exact Hno | apply G].
+    + apply G.
+    + intros x Hx. unfold pids. simpl pend. rewrite Hpe. intros [].
+    + intros x [[<-|Hx]|Hx]; [exact Hfo | apply (g_fresh _ _ G); left; exact Hx | apply (g_fresh _ _ G); right; exact Hx].
+    + intros x [].
+    + apply G.
+    + intros x [[<-|Hx]|Hx]; [simpl; rewrite Hb; discriminate | apply (g_info _ _ G); left; exact Hx | apply (g_info _ _ G); right; exact Hx].
+  - exact Hpe.
+  - apply S.
+  - intros x r' [Hx|Hx]; [inversion Hx; subst; exists b; exact Hb | apply (si_reginfo _ S); exact Hx].
+  - apply S.
+Qed.
+
+(* one event of the repaired machine *)
+Lemma step1_ok s e :
+  SInv s -> torn s = false ->
+  SInv (step1 true true s e) /\ (RegAll s -> alloc_ok s e = true -> RegAll (step1 true true s e)).
+Proof.
+  intros S Ht. pose proof (si_g _ S) as G. pose proof (si_pend _ S) as Hpe.
+  destruct e as [k isbox o order marks | b [o|] | k o | order marks | | | order]; cbn [step1].
+  - (* ENew *)
+    destruct (info s o) as [[k0 b0]|] eqn:Hinfo; [apply SInv_set_bad'; exact S|].
+    set (s1 := add_obj o k isbox s).
+    assert (Hfo : fin_count s o = 0) by (apply (si_fin_alloc _ S); exact Hinfo).
+    assert (Hno : ~ In o (regids s)).
+    { intros Hin. apply (g_info _ _ G o (or_introl Hin)). exact Hinfo. }
+    assert (Hinfo1 : forall x, x <> o -> info s1 x = info s x).
+    { intros x Hne. unfold s1. simpl. destruct (Nat.eqb_spec x o); [contradiction | reflexivity]. }
+    assert (Hinfo1o : info s1 o = Some (k, isbox)) by (unfold s1; simpl; rewrite Nat.eqb_refl; reflexivity).
+    assert (S1 : SInv s1).
+    { constructor; try apply S.
+      - constructor; try apply G. intros x Hx. destruct (Nat.eq_dec x o) as [->|Hne].
+        + rewrite Hinfo1o. discriminate.
+        + rewrite (Hinfo1 x Hne). apply (g_info _ _ G). exact Hx.
+      - intros x r Hx. destruct (Nat.eq_dec x o) as [->|Hne].
+        + exfalso. apply Hno. unfold regids. apply in_map_iff. exists (o, r). auto.
+        + rewrite (Hinfo1 x Hne). apply (si_reginfo _ S). exact Hx.
+      - intros x Hx. destruct (Nat.eq_dec x o) as [->|Hne]; [exact Hfo|].
+        rewrite (Hinfo1 x Hne) in Hx. apply (si_fin_alloc _ S). exact Hx. }
+    assert (R1 : RegAll s -> k = KRaw -> RegAll s1).
+    { intros R Hk _ x k' b' Hi Hk' Hf. destruct (Nat.eq_dec x o) as [->|Hne].
+      - rewrite Hinfo1o in Hi. congruence.
+      - rewrite (Hinfo1 x Hne) in Hi. apply (R Ht x k' b' Hi Hk' Hf). }
+    destruct k.
+    + (* managed *)
+      change (running s1) with (running s). destruct (running s) eqn:Hrun; simpl negb; cbv iota.
+      2:{ split; [exact S1|]. intros _ Hc. unfold alloc_ok in Hc. rewrite Hrun in Hc. discriminate. }
+      set (s2 := set_reg ((o, kind_eqb KManaged KRoot) :: reg s1) s1).
+      assert (S2 : SInv s2 /\ (RegAll s -> RegAll s2)).
+      { split.
+        - apply register_ok; [exact S1 | exact Hno | exact Hfo | exists isbox; exact Hinfo1o].
+        - intros R _ x k' b' Hi Hk' Hf. destruct (Nat.eq_dec x o) as [->|Hne]; [left; reflexivity|].
+          right. assert (Hi' : info s1 x = Some (k', b')) by exact Hi.
+          rewrite (Hinfo1 x Hne) in Hi'. apply (R Ht x k' b' Hi' Hk' Hf). }
+      destruct S2 as [S2 R2].
+      destruct (mitems s2 <? nitems s2).
+      * destruct (sweep_ok order (o :: marks) s2 (si_g _ S2) (si_pend _ S2)) as (G3 & P3 & E3 & _).
+        destruct (SInv_ext _ _ S2 G3 E3) as [S3 R3]. split; [exact S3|]. intros R _. apply R3, R2, R.
+      * split; [exact S2|]. intros R _. apply R2, R.
+    + (* root *)
+      change (running s1) with (running s). destruct (running s) eqn:Hrun; simpl negb; cbv iota.
+      2:{ split; [exact S1|]. intros _ Hc. unfold alloc_ok in Hc. rewrite Hrun in Hc. discriminate. }
+      set (s2 := set_reg ((o, kind_eqb KRoot KRoot) :: reg s1) s1).
+      assert (S2 : SInv s2 /\ (RegAll s -> RegAll s2)).
+      { split.
+        - apply register_ok; [exact S1 | exact Hno | exact Hfo | exists isbox; exact Hinfo1o].
+        - intros R _ x k' b' Hi Hk' Hf. destruct (Nat.eq_dec x o) as [->|Hne]; [left; reflexivity|].
+          right. assert (Hi' : info s1 x = Some (k', b')) by exact Hi.
+          rewrite (Hinfo1 x Hne) in Hi'. apply (R Ht x k' b' Hi' Hk' Hf). }
+      destruct S2 as [S2 R2].
+      destruct (mitems s2 <? nitems s2).
+      * destruct (sweep_ok order (o :: marks) s2 (si_g _ S2) (si_pend _ S2)) as (G3 & P3 & E3 & _).
+        destruct (SInv_ext _ _ S2 G3 E3) as [S3 R3]. split; [exact S3|]. intros R _. apply R3, R2, R.
+      * split; [exact S2|]. intros R _. apply R2, R.
+    + split; [exact S1|]. intros R _. apply R1; auto.
+  - (* ELink b (Some o) *)
+    match goal with |- context [if ?c then _ else _] => destruct c end; [|apply SInv_set_bad'; exact S].
+    destruct (set_owned_ok [] s (upd_owned (owned s) b (Some o)) G) as (G' & E').
+    destruct (SInv_ext _ _ S G' E') as [S' R']. split; [exact S'|]. intros R _. apply R', R.
+  - (* ELink b None *)
+    match goal with |- context [if ?c then _ else _] => destruct c end; [|apply SInv_set_bad'; exact S].
+    destruct (set_owned_ok [] s (upd_owned (owned s) b None) G) as (G' & E').
+    destruct (SInv_ext _ _ S G' E') as [S' R']. split; [exact S'|]. intros R _. apply R', R.
+  - (* EDel *)
+    destruct (live s o) eqn:Hlive; simpl andb; cbv iota; [|apply SInv_set_bad'; exact S].
+    destruct (live_spec _ _ Hlive) as [Hf0 Hinf].
+    destruct (kind_of s o) as [k'|] eqn:Hk; [|apply SInv_set_bad'; exact S].
+    destruct (kind_eqb k k') eqn:Hkk; [|apply SInv_set_bad'; exact S].
+    assert (Hkeq : k = k') by (destruct k, k'; simpl in Hkk; congruence). subst k'.
+    destruct k.
+    + destruct (gc_rem_ok _ _ (finalise_ok (fuel_of s)) [] s o G ltac:(unfold fuel_of, measure; lia)) as (G' & E' & _).
+      destruct (SInv_ext _ _ S G' E') as [S' R']. split; [exact S'|]. intros R _. apply R', R.
+    + destruct (gc_rem_ok _ _ (finalise_ok (fuel_of s)) [] s o G ltac:(unfold fuel_of, measure; lia)) as (G' & E' & _).
+      destruct (SInv_ext _ _ S G' E') as [S' R']. split; [exact S'|]. intros R _. apply R', R.
+    + assert (Hno : ~ In o (regids s)).
+      { intros Hin. unfold regids in Hin. apply in_map_iff in Hin. destruct Hin as [[y r] [Hy Hin]]. simpl in Hy. subst y.
+        destruct (si_reginfo _ S o r Hin) as [b' Hb']. unfold kind_of in Hk. rewrite Hb' in Hk. simpl in Hk. destruct r; discriminate. }
+      assert (Hnp : ~ In o (pids s)) by (unfold pids; rewrite Hpe; intros []).
+      destruct (finalise_ok (fuel_of s) [] s o G Hno Hnp Hf0 Hinf ltac:(unfold fuel_of, measure; lia)) as (G' & E' & _).
+      destruct (SInv_ext _ _ S G' E') as [S' R']. split; [exact S'|]. intros R _. apply R', R.
+  - (* ECollect *)
+    destruct (sweep_ok order marks s G Hpe) as (G3 & P3 & E3 & _).
+    destruct (SInv_ext _ _ S G3 E3) as [S3 R3]. split; [exact S3|]. intros R _. apply R3, R.
+  - (* EStop *)
+    split.
+    + constructor; try apply S. eapply GInv_same_core; try exact G; reflexivity.
+    + intros R _. exact R.
+  - (* EStart *)
+    split.
+    + constructor; try apply S. eapply GInv_same_core; try exact G; reflexivity.
+    + intros R _. exact R.
+  - (* ETeardown *)
+    destruct (sweep_ok order [] s G Hpe) as (G3 & P3 & E3 & _).
+    destruct (SInv_ext _ _ S G3 E3) as [S3 R3].
+    split.
+    + constructor.
+      * constructor.
+        -- simpl. constructor.
+        -- apply G3.
+        -- intros x Hx. destruct Hx.
+        -- intros x Hx. destruct Hx as [Hx|Hx]; [destruct Hx|]. apply (g_fresh _ _ G3). right. exact Hx.
+        -- apply G3.
+        -- apply G3.
+        -- intros x Hx. destruct Hx as [Hx|Hx]; [destruct Hx|]. apply (g_info _ _ G3). right. exact Hx.
+      * exact P3.
+      * apply S3.
+      * intros x r [].
+      * apply S3.
+    + intros _ _ Hc. discriminate.
 Qed.
